@@ -189,3 +189,51 @@ func vh_C17_L2_wrong_kind_abort() {
 	vassert(vDeliver(b, cb) == nil && !b.willSendAbort, "the negotiated kind is accepted")
 	vcover("end")
 }
+
+// C19.L5b: two DATA chunks bundled in one packet: if either of them calls for an
+// immediate acknowledgement (gap, duplicate, I-bit) the SACK goes out at once even though
+// the other one alone would have been acknowledged with delay.
+func vh_C19_L5_ack_policy_bundled() {
+	a, _ := vNewAssoc()
+	cum := a.peerLastTSN()
+	c1 := vDataChunk(a, cum+1, 4, true, 1) // in sequence: alone it would use the delayed ack
+	var c2 *chunkPayloadData
+	kind := vPick(3)
+	switch kind {
+	case 0:
+		c2 = vDataChunk(a, cum+3, 4, true, 1) // opens a gap
+	case 1:
+		c2 = vDataChunk(a, cum+1, 4, true, 1) // duplicate of the first
+	case 2:
+		c2 = vDataChunk(a, cum+2, 4, true, 1)
+		c2.immediateSack = true
+	}
+	first := vPick(2) == 0
+	pkt := &packet{verificationTag: a.myVerificationTag, sourcePort: a.destinationPort, destinationPort: a.sourcePort}
+	a.handleChunksStart()
+	if first {
+		vassert(a.handleChunk(pkt, c1) == nil && a.handleChunk(pkt, c2) == nil, "DATA is never fatal")
+	} else if kind != 1 {
+		vassert(a.handleChunk(pkt, c2) == nil && a.handleChunk(pkt, c1) == nil, "DATA is never fatal")
+	} else {
+		vassert(a.handleChunk(pkt, c1) == nil && a.handleChunk(pkt, c2) == nil, "DATA is never fatal")
+	}
+	a.handleChunksEnd()
+	if kind == 0 && !first {
+		// the in-sequence chunk arrived second and the gap chunk is still ahead: a gap remains
+		vassert(a.payloadQueue.size() > 0, "gap remains")
+	}
+	vassert(a.ackState == ackStateImmediate, "a gap, duplicate or I-bit anywhere in the packet makes the acknowledgement immediate")
+	pkts := vWriterWake(a)
+	sacks := 0
+	for _, raw := range pkts {
+		p := vDecode(raw)
+		for _, c := range p.chunks {
+			if _, ok := c.(*chunkSelectiveAck); ok {
+				sacks++
+			}
+		}
+	}
+	vassert(sacks == 1, "the SACK is emitted by the next writer pass")
+	vcover("end")
+}
